@@ -3,7 +3,7 @@
    representable, else reverts; for ALL operand values of the type.  GenVenom.v is regenerated every run. *)
 From Coq Require Import ZArith Bool List String Lia.
 From Verif Require Import Base.Word256 C03.LIR C03.VSL C03.ArithSpec C03.WordArith C03.TypeLemmas C03.ArithModel
-  C03.TieBase C03.VSubst C03.GenVenom C03.LegacyExact C03.VenomExact C03.TieVenom.
+  C03.TieBase C03.TieModels C03.VSubst C03.GenVenom C03.LegacyExact C03.VenomExact C03.TieVenom.
 Import ListNotations.
 Open Scope Z_scope.
 
